@@ -105,6 +105,16 @@ def gen_split_history(r):
         if r.random() < 0.25:
             ci = r.randrange(nc)
             ops += ["cur %d to %s" % (ci, r.choice(["prev", "prev", "next"])), "cur %d key" % ci]
+    if nc > 1 and r.random() < 0.5:
+        # the cursor opened last deletes its way through whole nodes (node removal by cursor_del) while the others stand in the
+        # nodes around it
+        d = nc - 1
+        step = r.choice(["next", "prev"])
+        for _ in range(r.choice([20, 40, 70])):
+            ops += ["cur %d del" % d, "cur %d to %s" % (d, step), "cur %d key" % d]
+            if r.random() < 0.15:
+                ci = r.randrange(nc - 1)
+                ops += ["cur %d key" % ci]
     for ci in range(nc):
         for _ in range(r.choice([4, 10])):
             ops += ["cur %d to prev" % ci, "cur %d key" % ci]
